@@ -123,7 +123,8 @@ def batching(case):
   return {'evals': 1, 'nontrivial': any(n % case['B'] for n in sizes), 'outcome': [steps, algos.plist(want_p)]}
 
 
-COHORTS = {'A': [0], 'B': [1], 'AB': [0, 1], 'AC': [0, 2], 'BA': [1, 0], 'C': [2]}
+# E: a round in which no client at all took part (the server optimizer still takes its step on a zero update)
+COHORTS = {'A': [0], 'B': [1], 'AB': [0, 1], 'AC': [0, 2], 'BA': [1, 0], 'C': [2], 'E': []}
 
 
 def histories(case):
@@ -221,7 +222,7 @@ def plan(ctx):
   ctx.pmap('histories', [{'copt': c, 'sopt': so, 'depth': 4 if th else 2, 'seed': s}
                          for c in ('sgd', 'mom', 'adam') for so in ('sgd', 'mom', 'adam')], chunk=1)
   # one long history per optimizer pair (16 rounds, every cohort several times): drift, counters, caches that fill up
-  long_path = ['AB', 'A', 'C', 'BA', 'AC', 'B', 'AB', 'AB', 'C', 'A', 'B', 'AC', 'BA', 'AB', 'A', 'B']
+  long_path = ['AB', 'A', 'C', 'BA', 'E', 'B', 'AB', 'AB', 'C', 'A', 'B', 'AC', 'E', 'AB', 'A', 'B']
   ctx.pmap('histories', [{'copt': c, 'sopt': so, 'depth': len(long_path), 'history': long_path, 'seed': s}
                          for c, so in (('sgd', 'sgd'), ('mom', 'mom'), ('adam', 'sgd'), ('sgd', 'adam'))], chunk=1)
   backs = ['debug', 'pmap1', 'pmap2', 'pmap3']
